@@ -45,6 +45,23 @@ func (m *Mutex) Unlock() {
 	m.mu.Unlock()
 }
 
+// LockQuiet / UnlockQuiet: acquire and release without giving the baton away
+// (unless the mutex is held, which in baton mode means its holder is parked
+// inside the critical section).
+func (m *Mutex) LockQuiet() {
+	for !m.TryLock() {
+		simrt.Yield()
+	}
+}
+
+func (m *Mutex) UnlockQuiet() {
+	if simrt.Baton() {
+		simrt.MutexUnlockQuiet(&m.st, &m.mu)
+		return
+	}
+	m.mu.Unlock()
+}
+
 // RWMutex: readers are treated as writers (stricter, never wrong for code
 // that does not take a read lock recursively).
 type RWMutex struct {
